@@ -8,7 +8,7 @@ CONSTANTS
   SpellNames = {"s2", "s4"}
   EmitTrees = FALSE
   Alpha = "P"
-  Contexts = {"plain", "in2", "kw"}
+  Contexts = {"plain", "in2", "kw", "sub"}
   MaxLen = 10
   TailLen = 0
   DeepReps = {}
